@@ -110,10 +110,6 @@ func (s Step) Label() string {
 		if s.Shelf != "" {
 			return s.Kind + " " + s.Shelf
 		}
-	case Begin:
-		if s.Shelf != "" {
-			return s.Kind + " " + s.Shelf
-		}
 	}
 	return s.Kind
 }
